@@ -4,7 +4,7 @@ use crate::report::Report;
 use crate::Cfg;
 
 pub fn run(cfg: &Cfg, rep: &mut Report) {
-    rep.rule = "Seeded histories per NFT flavour (base, enumerable, consecutive wrappers, the three examples, a votes-extension wrapper) with EXACT authorization: callers in the roles owner / approved / operator / former owner / stranger, each call signed by the principal alone (1/2) or a uniformly random subset of the 4 accounts; approvals and operator grants with live_until on {0,cur-1,cur,cur+1,..}; ledger moved to {L,L+1,L+ttl} of every live approval and operator grant; min_temp_entry_ttl alternates 1/16. get_approved for every id and is_approved_for_all for every pair are compared after every call. Distinct case = (flavour, op, spender role incl. @L and expired, principal signed?, outcome).".into();
+    rep.rule = "Seeded histories per NFT flavour (base, enumerable, consecutive wrappers, the three examples, a votes-extension wrapper) with EXACT authorization: callers in the roles owner / approved / operator / former owner / stranger, each call signed by the principal alone (1/2) or a uniformly random subset of the 4 accounts; approvals and operator grants with live_until on {0,cur-1,cur,cur+1,..}; ledger moved to {L,L+1,L+ttl} of every live approval and operator grant; min_temp_entry_ttl alternates 1/16. get_approved for every id and is_approved_for_all for every pair are compared after every call. Distinct case = (flavour, op, spender role incl. @L and expired, principal signed?, outcome). The parties are four accounts and the token contract's own address (which can own, receive and be approved, but in whose name nothing can be signed).".into();
     let nh = cfg.pick(5u64, 50);
     let steps = cfg.pick(200usize, 350);
     for (fi, fl) in ALL.iter().enumerate() {
